@@ -1,6 +1,7 @@
 import Alpen.Model.Daemon
 import Alpen.Lemmas.World
 import Alpen.Lemmas.Daemon
+import Alpen.Lemmas.Daemon2
 /-!
 # C07 — locality: a daemon only modifies local, active, initialised nodes
 
@@ -83,6 +84,28 @@ theorem C07_foreign_rows (w : World) (op : WOp) (hwf : w.WF) (hids : w.IdsWF) (h
 example : iterateOps ⟨[⟨1, 1, 1, true, .A, none, 0, none, true⟩, ⟨2, 2, 2, true, .A, none, 0, none, true⟩], [⟨1, none, none⟩],
     [⟨1, 1, 1, .M, .Y, true⟩, ⟨2, 1, 2, .M, .Y, true⟩], [], [], [], [], 10⟩ ⟨1, fun _ => true⟩
     = [.check ⟨1, 1, 1, .M, .Y, true⟩ true] := by decide
+
+/-- **C07.e (one node per group and host)** a transfer into a group is only ever decided by a daemon for which exactly
+    one node of that group is local, active and initialised — that node is where the pull will write; a group with no
+    or with several usable nodes on this host is skipped -/
+theorem C07_group_served_unique (w : World) (hv : HostView) (r : WReq) (sr : Bool)
+    (h : WOp.decide r sr ∈ iterateOps w hv) :
+    ∃ n, w.usableInGroup hv r.groupTo = [n] ∧ n ∈ w.nodes ∧ n.group = r.groupTo ∧ n.id ∈ w.usableIds hv := by
+  have hm := (firstPerFile_mem _ _ r (decide_of_mem_iterateOps w hv r sr h).1).1
+  unfold World.pendingInto at hm
+  obtain ⟨_, hc⟩ := List.mem_filter.mp hm
+  simp only [Bool.and_eq_true] at hc
+  have hlen : (w.usableInGroup hv r.groupTo).length = 1 := by
+    have := hc.2
+    unfold World.groupServed at this
+    simpa using this
+  match hl : w.usableInGroup hv r.groupTo, hlen with
+  | [n], _ =>
+    have hn : n ∈ w.usableInGroup hv r.groupTo := by rw [hl]; exact List.mem_singleton.mpr rfl
+    unfold World.usableInGroup at hn
+    obtain ⟨h1, h2⟩ := List.mem_filter.mp hn
+    simp only [Bool.and_eq_true, beq_iff_eq, List.contains_iff_mem] at h2
+    exact ⟨n, rfl, h1, h2.1, h2.2⟩
 
 /-- **C07.d (initialisation)** the main loop queues an init task for a node only if that node is local, active,
     currently fails the marker check, and a pending init request *naming that node* exists -/
